@@ -1792,3 +1792,10 @@ TABLE["C18"] += [
     N("matrix-copied-by-explicit-index", (H, "  for (int j=0;j<n;j++) for (int i=0;i<m;i++,data++) A(i,j) = *data;", "  for (int j=0;j<n;j++) for (int i=0;i<m;i++) A(i,j) = data[j*m+i];")),
     N("matrix-copied-row-by-row-with-strided-reads", (H, "  for (int j=0;j<n;j++) for (int i=0;i<m;i++,data++) A(i,j) = *data;", "  for (int i=0;i<m;i++) for (int j=0;j<n;j++) A(i,j) = data[i+j*m];")),
 ]
+
+for _m in TABLE["C06"]:
+    if _m["kind"] == "break" and "M2" in _m["rules"]:
+        _m["rules"] |= {"M16"}
+for _m in TABLE["C11"]:
+    if _m["kind"] == "break" and "H9" in _m["rules"]:
+        _m["rules"] |= {"H18"}
